@@ -420,7 +420,7 @@ class SpecGen:
             spec["dtype"] = r.choice(["int64", "float64"]) if (kind == "dfs" and self.feat["schema_dtype"] and r.random() < 0.3) else None
             if dtype_only and spec["dtype"] is None:
                 spec["dtype"] = "int64"
-            spec["coerce"] = self.feat["coerce"] and r.random() < 0.3
+            spec["coerce"] = self.feat["coerce"] and r.random() < 0.3 * self.p_boost
             spec["strict"] = (True if self.feat["strict"] and r.random() < 0.5 else
                               ("filter" if self.feat["filter"] and r.random() < 0.5 else False))
             spec["ordered"] = self.feat["ordered"] and r.random() < 0.5
@@ -510,9 +510,31 @@ class SpecGen:
                                          for lv in ix["multi"]]}
             else:
                 fr["index"] = {"name": ix["name"], "dtype": ix["dtype"], "values": self.values(ix["dtype"], n, dup=not ix["unique"])}
+        # data that *needs* the coercion the schema offers: the same values as strings for one coercing numeric target
+        r2 = random.Random(r.getrandbits(32))
+        if r2.random() < 0.3:
+            self.needs_coercion(spec, fr, r2)
         if r.random() >= conform:
             self.perturb(fr, n)
         return fr
+
+    def needs_coercion(self, spec, fr, r2):
+        targets = []
+        byname = {c["name"]: c for c in fr["columns"]}
+        for c in (spec.get("columns") or []) + ([spec["column"]] if spec.get("column") else []):
+            if (c.get("coerce") or spec.get("coerce")) and c["dtype"] in ("int64", "float64", "simint") and c["name"] in byname:
+                targets.append(byname[c["name"]])
+        ix, fix = spec.get("index"), fr.get("index")
+        if ix and fix:
+            slv = ix["multi"] if "multi" in ix else [ix]
+            flv = fix["multi"] if "multi" in fix else [fix]
+            for a, b in zip(slv, flv):
+                if (a.get("coerce") or ix.get("coerce") or spec.get("coerce")) and a["dtype"] == "int64":
+                    targets.append(b)
+        if targets:
+            c = r2.choice(targets)
+            c["values"] = [None if v is None else str(v) for v in c["values"]]
+            c["dtype"] = "str"
 
     def perturb(self, fr, n):
         r = self.rng
@@ -523,7 +545,7 @@ class SpecGen:
             if m == "drop_col" and len(cols) > 1:
                 cols.pop(r.randrange(len(cols)))
             elif m == "extra_col":
-                cols.insert(r.randrange(len(cols) + 1), {"name": r.choice(["extra", "zz"]), "dtype": "int64", "values": self.values("int64", n, dup=True)})
+                cols.insert(r.randrange(len(cols) + 1), {"name": r.choice(["extra", "zz", "index"]), "dtype": "int64", "values": self.values("int64", n, dup=True)})
             elif m == "retype" and cols:
                 c = r.choice(cols)
                 c["dtype"] = r.choice([d for d in DTYPES if d != c["dtype"]])
@@ -631,6 +653,9 @@ def _dtype(d, backend):
     if d == "simint":
         return SimInt()
     if d == "datetime_tz_agnostic":
+        if backend == "polars":
+            from pandera.engines import polars_engine
+            return polars_engine.DateTime(time_zone_agnostic=True)
         return pandas_engine.DateTime(time_zone_agnostic=True)
     if backend == "polars":
         return PL_DTYPES[d]
@@ -811,8 +836,9 @@ def build_frame(fr, backend="pandas", kind="dfs", lazy=False):
             dt = PL_DTYPES.get(c["dtype"], pl.Int64)
             vals = c["values"]
             try:
-                if c["dtype"] == "datetime64[ns]":
-                    data[c["name"]] = pl.Series(c["name"], vals, dtype=pl.Utf8).str.to_datetime(time_unit="ns", strict=False)
+                if c["dtype"] in ("datetime64[ns]", "datetime_tz_agnostic"):
+                    ser = pl.Series(c["name"], vals, dtype=pl.Utf8).str.to_datetime(time_unit="us" if c["dtype"] == "datetime_tz_agnostic" else "ns", strict=False)
+                    data[c["name"]] = ser.dt.replace_time_zone(c["tz"]) if c.get("tz") else ser
                 else:
                     data[c["name"]] = pl.Series(c["name"], vals, dtype=dt, strict=False)
             except Exception:  # noqa: BLE001
